@@ -81,11 +81,9 @@ theorem publish_spec {p : Program} {k : Key} {d : NodeDef} (hp : p[k]? = some d)
     {s1 : St} (i1 : Inv p s1) (hwhy : Just p s1 k) (hns : ¬ Solid s1 k)
     (hng : ∀ n, s1.nodes k = some n → n.kind = .normal → ¬ NGood s1 k) {a : Acc} {v : Val}
     (hacc : AccOK p k s1 a) (htr : TraceOK d.prog a.deps v)
-    (hpj : NoProjOverProj p → d.kind = .projection →
-      ∀ d' o nd, (d', o) ∈ a.deps → s1.nodes d' = some nd → nd.kind = .firewall)
-    (hpk : d.kind = .projection →
-      ∀ d' o nd, (d', o) ∈ a.deps → s1.nodes d' = some nd → nd.kind = .firewall ∨ nd.kind = .projection)
-    (hst : StaticProj p → d.kind = .projection → ∀ ks, ProgStatic d.prog ks →
+    (hpk : d.kind = .projection → ∀ d' o nd, (d', o) ∈ a.deps → s1.nodes d' = some nd →
+      nd.kind = .firewall ∨ (nd.kind = .projection ∧ IsStaticKey p d'))
+    (hst : d.kind = .projection → ∀ ks, ProgStatic d.prog ks →
       a.deps.map (·.1) = recordKeys ks [] ∧ a.tfc = foldTfc (front s1) ks []) :
     let changed : Bool := valueChanged s1 k v || projTfcChanged s1 k a.tfc
     let nn : Node := { kind := d.kind, lastVerified := s1.epoch, value := v, deps := a.deps,
@@ -119,6 +117,10 @@ theorem publish_spec {p : Program} {k : Key} {d : NodeDef} (hp : p[k]? = some d)
     rw [hp] at hp'; cases hp'
     exact hk'.symm
   -- if nothing was marked, an old firewall / projection node keeps its value, a projection its set
+  have ksOf : IsStaticKey p k → ∃ ks, ProgStatic d.prog ks := by
+    rintro ⟨dd, ks, hpd, hks⟩
+    rw [hp] at hpd; cases hpd
+    exact ⟨ks, hks⟩
   have sameVal : ∀ n0, s1.nodes k = some n0 → n0.kind = .firewall ∨ n0.kind = .projection →
       changed = false → v = n0.value := by
     intro n0 h0 hk hch
@@ -176,20 +178,6 @@ theorem publish_spec {p : Program} {k : Key} {d : NodeDef} (hp : p[k]? = some d)
       · subst e; rw [n3k] at hx; obtain rfl := Option.some.inj hx
         exact ⟨d, hp, rfl, fun h => by rcases h with h | h; exact absurd h hki; exact absurd h hke⟩
       · rw [n3o x e] at hx; exact i1.kind x nx hx
-    · intro pa x nx hx hkx d' o' nd' hm hnd'
-      by_cases e : x = k
-      · subst e; rw [n3k] at hx; obtain rfl := Option.some.inj hx
-        obtain ⟨hlt, _, nd, hnd, _⟩ := hacc.2.2 d' o' hm
-        rw [n3o d' (by komega)] at hnd'
-        exact hpj pa hkx d' o' nd' hm hnd'
-      · rw [n3o x e] at hx
-        obtain ⟨_, nd, hnd⟩ := i1.down x nx hx d' o' hm
-        have := i1.pjFw pa x nx hx hkx d' o' nd hm hnd
-        by_cases e' : d' = k
-        · subst e'; rw [n3k] at hnd'; obtain rfl := Option.some.inj hnd'
-          show d.kind = .firewall
-          rw [← oldKind nd hnd]; exact this
-        · rw [n3o d' e', hnd] at hnd'; cases hnd'; exact this
     · intro x nx hx hkx d' o' nd' hm hnd'
       by_cases e : x = k
       · subst e; rw [n3k] at hx; obtain rfl := Option.some.inj hx
@@ -201,14 +189,14 @@ theorem publish_spec {p : Program} {k : Key} {d : NodeDef} (hp : p[k]? = some d)
         have := i1.pjKinds x nx hx hkx d' o' nd hm hnd
         by_cases e' : d' = k
         · subst e'; rw [n3k] at hnd'; obtain rfl := Option.some.inj hnd'
-          show d.kind = .firewall ∨ d.kind = .projection
+          show d.kind = .firewall ∨ (d.kind = .projection ∧ IsStaticKey p d')
           rw [← oldKind nd hnd]; exact this
         · rw [n3o d' e', hnd] at hnd'; cases hnd'; exact this
-    · intro sp x nx dx ks hx hpx hkx hstx
+    · intro x nx dx ks hx hpx hkx hstx
       by_cases e : x = k
       · subst e; rw [n3k] at hx; obtain rfl := Option.some.inj hx
         rw [hp] at hpx; cases hpx
-        obtain ⟨h1, h2⟩ := hst sp hkx ks hstx
+        obtain ⟨h1, h2⟩ := hst hkx ks hstx
         refine ⟨h1, ?_⟩
         show a.tfc = _
         rw [h2]
@@ -220,7 +208,7 @@ theorem publish_spec {p : Program} {k : Key} {d : NodeDef} (hp : p[k]? = some d)
         have hlt := (hacc.2.2 d'' o hm).1
         simp only [front, n3o d'' (by komega)]
       · rw [n3o x e] at hx
-        refine i1.pjStat_transfer sp ?_ hx hpx hkx hstx
+        refine i1.pjStat_transfer ?_ hx hpx hkx hstx
         intro d' nd hnd hkd
         by_cases ed : d' = k
         · subst ed
@@ -228,18 +216,18 @@ theorem publish_spec {p : Program} {k : Key} {d : NodeDef} (hp : p[k]? = some d)
           simp only [front, n3k, hnd]
           show contrib d.kind d' a.tfc = contrib nd.kind d' nd.tfc
           rw [hk0]
-          rcases hkd with hkd | hkd
+          rcases hkd with hkd | ⟨hkd, hsd⟩
           · rw [← hk0, hkd]; rfl
           · have hkdp : d.kind = .projection := by rw [← hk0]; exact hkd
-            obtain ⟨ks', hks'⟩ := sp d' d hp hkdp
-            rw [(hst sp hkdp ks' hks').2, (i1.pjStat sp d' nd d ks' hnd hp hkd hks').2]
+            obtain ⟨ks', hks'⟩ := ksOf hsd
+            rw [(hst hkdp ks' hks').2, (i1.pjStat d' nd d ks' hnd hp hkd hks').2]
         · simp only [front, n3o d' ed]
-    · intro sp x nx g o gn hx hm hg hkg
-      have tfcK : ∀ n0, s1.nodes k = some n0 → n0.kind = .projection → a.tfc = n0.tfc := by
-        intro n0 h0 hk0
+    · intro x nx g o gn hx hm hg hkg hsg
+      have tfcK : ∀ n0, s1.nodes k = some n0 → n0.kind = .projection → IsStaticKey p k → a.tfc = n0.tfc := by
+        intro n0 h0 hk0 hsk
         have hkdp : d.kind = .projection := by rw [← oldKind n0 h0]; exact hk0
-        obtain ⟨ks', hks'⟩ := sp k d hp hkdp
-        rw [(hst sp hkdp ks' hks').2, (i1.pjStat sp k n0 d ks' h0 hp hk0 hks').2]
+        obtain ⟨ks', hks'⟩ := ksOf hsk
+        rw [(hst hkdp ks' hks').2, (i1.pjStat k n0 d ks' h0 hp hk0 hks').2]
       by_cases e : x = k
       · subst e; rw [n3k] at hx; obtain rfl := Option.some.inj hx
         obtain ⟨hlt, _, nd, hnd, _, _, hse, _⟩ := hacc.2.2 g o hm
@@ -251,11 +239,11 @@ theorem publish_spec {p : Program} {k : Key} {d : NodeDef} (hp : p[k]? = some d)
           rw [n3k] at hg; obtain rfl := Option.some.inj hg
           obtain ⟨_, n0, h0⟩ := i1.down x nx hx g o hm
           have hk0 : n0.kind = .projection := by rw [oldKind n0 h0]; exact hkg
-          rw [i1.pjSeen sp x nx g o n0 hx hm h0 hk0]
-          exact (tfcK n0 h0 hk0).symm
+          rw [i1.pjSeen x nx g o n0 hx hm h0 hk0 hsg]
+          exact (tfcK n0 h0 hk0 hsg).symm
         · rw [n3o g eg] at hg
-          exact i1.pjSeen sp x nx g o gn hx hm hg hkg
-    · intro sp g gn hg hkg hpg
+          exact i1.pjSeen x nx g o gn hx hm hg hkg hsg
+    · intro g gn hg hkg hsg hpg
       have pendMono : ∀ c, hasPending s1 c = true → hasPending s3 c = true := by
         intro c hc
         by_cases ec : c = k
@@ -268,15 +256,15 @@ theorem publish_spec {p : Program} {k : Key} {d : NodeDef} (hp : p[k]? = some d)
       · subst eg
         rw [n3k] at hg; obtain rfl := Option.some.inj hg
         have hkdp : d.kind = .projection := hkg
-        obtain ⟨ks', hks'⟩ := sp g d hp hkdp
-        have hkeys := (hst sp hkdp ks' hks').1
+        obtain ⟨ks', hks'⟩ := ksOf hsg
+        have hkeys := (hst hkdp ks' hks').1
         -- an old callee with a pending backward projection is still recorded
         have keep : ∀ n0, s1.nodes g = some n0 → ∀ c o, (c, o) ∈ n0.deps → hasPending s1 c = true →
             ∃ c o, (c, o) ∈ a.deps ∧ hasPending s3 c = true := by
           intro n0 h0 c o hm hc
           have hk0 : n0.kind = .projection := by rw [oldKind n0 h0]; exact hkdp
           have hmem : c ∈ a.deps.map (·.1) := by
-            rw [hkeys, ← (i1.pjStat sp g n0 d ks' h0 hp hk0 hks').1]
+            rw [hkeys, ← (i1.pjStat g n0 d ks' h0 hp hk0 hks').1]
             exact List.mem_map.2 ⟨(c, o), hm, rfl⟩
           rw [List.mem_map] at hmem
           obtain ⟨⟨c', o'⟩, hm', rfl⟩ := hmem
@@ -287,13 +275,13 @@ theorem publish_spec {p : Program} {k : Key} {d : NodeDef} (hp : p[k]? = some d)
         | some n0 =>
           have hk0 : n0.kind = .projection := by rw [oldKind n0 h0]; exact hkdp
           by_cases hp0 : n0.pendingBP = true
-          · obtain ⟨c, o, hm, hc⟩ := i1.pjCause sp g n0 h0 hk0 hp0
+          · obtain ⟨c, o, hm, hc⟩ := i1.pjCause g n0 h0 hk0 hsg hp0
             exact keep n0 h0 c o hm hc
           · -- newly pending: the value changed (the set cannot), so a recorded callee is broken
             have hch : changed = true := by simpa [hasPending, h0, hp0] using hpg'
             have htf : projTfcChanged s1 g a.tfc = false := by
               have : a.tfc = n0.tfc := by
-                rw [(hst sp hkdp ks' hks').2, (i1.pjStat sp g n0 d ks' h0 hp hk0 hks').2]
+                rw [(hst hkdp ks' hks').2, (i1.pjStat g n0 d ks' h0 hp hk0 hks').2]
               simp [projTfcChanged, h0, this]
             have hvc : valueChanged s1 g v = true := by simpa [changed, htf] using hch
             have hbroken : ∃ c o nc, (c, o) ∈ n0.deps ∧ s1.nodes c = some nc ∧ nc.value ≠ o := by
@@ -323,7 +311,7 @@ theorem publish_spec {p : Program} {k : Key} {d : NodeDef} (hp : p[k]? = some d)
             have hpc := i1.pjBroken g n0 h0 hk0 c o nc hm hnc hne
             exact keep n0 h0 c o hm (by simp [hasPending, hnc, hpc])
       · rw [n3o g eg] at hg
-        obtain ⟨c, o, hm, hc⟩ := i1.pjCause sp g gn hg hkg hpg
+        obtain ⟨c, o, hm, hc⟩ := i1.pjCause g gn hg hkg hsg hpg
         exact ⟨c, o, hm, pendMono c hc⟩
     · intro x nx hx hkx d' o' nd' hm hnd' hne
       by_cases e : x = k
@@ -340,7 +328,7 @@ theorem publish_spec {p : Program} {k : Key} {d : NodeDef} (hp : p[k]? = some d)
           show (changed || hasPending s1 d') = true
           by_cases hv0 : n0.value = o'
           · have : valueChanged s1 d' v = true :=
-              valueChanged_true_of_ne h0 hk0 (by rw [hv0]; exact fun h => hne h.symm)
+              valueChanged_true_of_ne h0 (hk0.imp id (·.1)) (by rw [hv0]; exact fun h => hne h.symm)
             simp [changed, this]
           · have := i1.pjBroken x nx hx hkx d' o' n0 hm h0 hv0
             simp [hasPending, h0, this]
